@@ -281,6 +281,30 @@ template<class T> void gather(const communicator &comm, const T &in_value, std::
     out_values.clear();
     for (int r = 0; r < P; r++) { std::string b; { sim::IgnoreGuard ig; b = sl->data[r]; } T v; sim::mpi_unpack(b, v); out_values.push_back(v); }
 }
+template<class T> void gather(const communicator &comm, const T &in_value, int root) { std::vector<T> dummy; gather(comm, in_value, dummy, root); }
+template<class T> void gather(const communicator &comm, const T &in_value, T *out_values, int root) {
+    std::vector<T> v; gather(comm, in_value, v, root);
+    if (comm.rank() == root) for (size_t k = 0; k < v.size(); k++) out_values[k] = v[k];
+}
+// array forms
+template<class T> void broadcast(const communicator &comm, T *values, int n, int root) {
+    std::vector<T> v; if (comm.rank() == root) v.assign(values, values + n);
+    broadcast(comm, v, root);
+    if (comm.rank() != root) for (int k = 0; k < n && k < (int) v.size(); k++) values[k] = v[k];
+}
+template<class T, class Op> void reduce(const communicator &comm, const T *in_values, int n, T *out_values, Op op, int root) {
+    for (int k = 0; k < n; k++) { T out = in_values[k]; reduce(comm, in_values[k], out, op, root); if (comm.rank() == root) out_values[k] = out; }
+}
+template<class T, class Op> void reduce(const communicator &comm, const T *in_values, int n, Op op, int root) {
+    for (int k = 0; k < n; k++) { T out = in_values[k]; reduce(comm, in_values[k], out, op, root); }
+}
+template<class T, class Op> void all_reduce(const communicator &comm, const T *in_values, int n, T *out_values, Op op) {
+    for (int k = 0; k < n; k++) all_reduce(comm, in_values[k], out_values[k], op);
+}
+template<class T> void scatter(const communicator &comm, const T *in_values, T &out_value, int root) {
+    std::vector<T> v; if (comm.rank() == root) v.assign(in_values, in_values + comm.size());
+    scatter(comm, v, out_value, root);
+}
 template<class T> void all_gather(const communicator &comm, const T &in_value, std::vector<T> &out_values) {
     gather(comm, in_value, out_values, 0);
     broadcast(comm, out_values, 0);
